@@ -17,6 +17,7 @@ func checkC07(c *Ctx) {
 	r.Rule("R07.2", "ancestors first, iff the flag: the decision functions extracted from collectArgs and walkParentAttrs over {logger has own attrs, inherit flag, owner != nil, ...} say: the chain is walked whenever the flag is on or the logger has attributes; inside the walk the recursive visit of the owner happens exactly when flag and owner != nil, before this logger's own attributes are appended, and emptiness of a logger's own list never cuts the walk when the flag is on")
 	r.Rule("R08.1", "(shared with C08) the attributes of a record are those of this call: nothing on the print path writes memory that outlives the call other than the pooled objects of this call (a logger-held attribute slot reused across records would let one record show another record's context values)")
 	r.Rule("R08.2", "(shared with C08) attribute lists and attribute objects belong to their owners: no in-place reordering or appending into a shared list, no mutating call on an attribute object shared with a logger")
+	r.Rule("R02.9", "(shared with C02) a nil context never has a method called on it: for every method call on a context.Context value on the print path, every origin of the receiver (through parameters over all static call sites, and joins) is a value made by package context or the raw parameter on the not-nil side of a test of that parameter")
 	r.Rule("R07.3", "last occurrence wins: the sort applied before de-duplication is a stable sort; its comparator and the de-duplication equality read only Key() (and nil-ness); dedupeSlice overwrites the kept slot with the later element of an equal run and returns the prefix")
 	r.Rule("R07.4", "every level sorted: serializeAttrs is the one member-list emitter, it sorts unconditionally (the switch is a constructor constant true), de-duplicates the sorted slice and ranges over the result; groups recurse into it")
 	r.Rule("R07.5", "nil context: the context handed to the attribute collection is never nil (replaced by context.TODO/Background before use); context values are taken for the logger's registered keys under their string / Stringer key")
@@ -35,11 +36,13 @@ func checkC07(c *Ctx) {
 		c07Collect(c, p, m)
 		c08Stores(c, p, m)
 		c07Sort(c, p, m)
+		nilContextSafe(c, p, m, "R02.9")
 		c10Frames(c, p, m)
 		contextKeysRegistered(c, p)
 	}
 	c.Floor["R07.2"] = 12
-	c.Floor["R07.3"] = 5
+	c.Floor["R07.3"] = 6
+	c.Floor["R02.9"] = 1
 }
 
 func c07Collect(c *Ctx, p *Prog, m *Model) {
@@ -1017,7 +1020,6 @@ func startsAt(v ssa.Value, c int64) bool {
 	}
 	return false
 }
-
 
 // comparatorTable: the sort's comparator, read as a decision function over {a is nil, b is nil, the relation of the
 // two keys}, is a consistent three-way order: 0 for two nils, opposite non-zero results for the two one-nil rows,
